@@ -33,3 +33,5 @@ def rules(ctx):
     S.mutator_release_rules(ctx)
     S.free_verdict_rules(ctx)
     S.key_compare_rules(ctx)
+    S.buddy_split_rules(ctx)
+    S.replaced_range_rules(ctx)
